@@ -372,6 +372,8 @@ func (r *rng) item(p profile, w, h int) (int, string) {
 			b[i] = byte(r.n(256))
 		}
 		return kind, string(b)
+	case kResize:
+		return kind, "" // the caller turns it into a Resize operation
 	}
 	return kText, r.text(p.wide, w)
 }
